@@ -169,7 +169,14 @@ def build_flagged(lib, jv, arena, rnd, p_const=0.5, p_ref=0.3):
     if t == "A":
         a = lib.cJSON_CreateArray()
         for ch in jv[1]:
-            lib.cJSON_AddItemToArray(a, build_flagged(lib, ch, arena, rnd, p_const, p_ref))
+            c = build_flagged(lib, ch, arena, rnd, p_const, p_ref)
+            if rnd.random() < 0.3:
+                # the element used to be an object member: it still carries that name (the library never clears it)
+                tmp = lib.cJSON_CreateObject()
+                lib.cJSON_AddItemToObject(tmp, rnd.choice([b"stale", b"0", b"a/b", b""]), c)
+                lib.cJSON_DetachItemViaPointer(tmp, c)
+                lib.cJSON_Delete(tmp)
+            lib.cJSON_AddItemToArray(a, c)
         return a
     if t == "O":
         o = lib.cJSON_CreateObject()
